@@ -355,6 +355,7 @@ func init() {
 		e.extrasGate("restoreObject")
 		e.extrasGate("restoreScope")
 		e.extrasDeferredOwnFile()
+		e.RDecorateForeignDecl()
 		e.RSym()
 		e.twinConstants("ObjKind")
 		var pairs []forkPair
@@ -377,4 +378,103 @@ func allocLit(e ast.Expr) (*ast.CompositeLit, bool) {
 	}
 	cl, ok := u.X.(*ast.CompositeLit)
 	return cl, ok
+}
+
+// RDecorateForeignDecl (R-EXTRAS, decorate side): decorateObject converts the node an object's Decl
+// (or Data) points to with the tables of the file that is being decorated — comments, line breaks
+// and spacing are looked up by node in f.decorations / f.before / f.after, which hold entries for
+// the nodes of *this* file only. A declaring node that belongs to another file of the package
+// (cross-file references exist as soon as the files were resolved together, ast.NewPackage) is
+// converted bare and cached in Dst.Nodes; when its own file is decorated later the cached bare
+// node is reused. Required: the conversion of o.Decl / o.Data in decorateObject happens under a
+// condition that looks at the node (its file, its position, its presence in a table of this
+// file) — not unconditionally.
+func (e *Env) RDecorateForeignDecl() {
+	pkg := e.Prog.Pkg(load.PkgDecorator)
+	info := pkg.TypesInfo
+	c := e.Sib.Ctx[load.PkgDecorator]
+	fd := load.FuncDecl(pkg, "fileDecorator", "decorateObject")
+	if fd == nil || fd.Body == nil {
+		e.Run.Violation("R-EXTRAS", "decorateObject exists", "", "function missing")
+		return
+	}
+	n := 0
+	ast.Inspect(fd.Body, func(nd ast.Node) bool {
+		ts, ok := nd.(*ast.TypeSwitchStmt)
+		if !ok {
+			return true
+		}
+		as, ok := ts.Assign.(*ast.AssignStmt)
+		if !ok || len(as.Lhs) != 1 || len(as.Rhs) != 1 {
+			return true
+		}
+		ta, ok := as.Rhs[0].(*ast.TypeAssertExpr)
+		if !ok {
+			return true
+		}
+		field := types.ExprString(ta.X) // o.Decl / o.Data
+		bound := as.Lhs[0].(*ast.Ident).Name
+		for _, cl := range ts.Body.List {
+			cc := cl.(*ast.CaseClause)
+			isNode := false
+			for _, t := range cc.List {
+				if p, tn := namedOf(info.TypeOf(t)); p == "go/ast" && tn == "Node" {
+					isNode = true
+				}
+			}
+			if !isNode {
+				continue
+			}
+			ast.Inspect(cc, func(m ast.Node) bool {
+				call, ok := m.(*ast.CallExpr)
+				if !ok {
+					return true
+				}
+				se, ok := call.Fun.(*ast.SelectorExpr)
+				if !ok || se.Sel.Name != "decorateNode" {
+					return true
+				}
+				n++
+				// the statements of the clause that lead to the call: an if whose condition
+				// mentions the bound node
+				guarded := false
+				ast.Inspect(cc, func(g ast.Node) bool {
+					is, ok := g.(*ast.IfStmt)
+					if !ok || !(is.Pos() <= call.Pos() && call.End() <= is.End()) || (is.Init != nil && is.Init.Pos() <= call.Pos() && call.End() <= is.Init.End()) {
+						return true
+					}
+					ast.Inspect(is.Cond, func(x ast.Node) bool {
+						if id, ok := x.(*ast.Ident); ok && id.Name == bound {
+							guarded = true
+						}
+						return true
+					})
+					return true
+				})
+				// or an earlier `if <cond on the node> { return/break }` in the clause
+				for _, st := range cc.Body {
+					if st.End() > call.Pos() {
+						break
+					}
+					if is, ok := st.(*ast.IfStmt); ok && len(is.Body.List) > 0 {
+						leaves := false
+						switch l := is.Body.List[len(is.Body.List)-1].(type) {
+						case *ast.ReturnStmt:
+							leaves = true
+						case *ast.BranchStmt:
+							leaves = l.Tok == token.BREAK
+						}
+						if leaves && strings.Contains(c.ExprStr(is.Cond), bound) {
+							guarded = true
+						}
+					}
+				}
+				e.Run.Check("R-EXTRAS", fmt.Sprintf("decorateObject: the node behind %s is converted with this file's tables only when it belongs to this file", field), e.Prog.Pos(call.Pos()), guarded,
+					"the declaring node is converted unconditionally: for an object declared in another file of the package (files resolved together with ast.NewPackage, decorated one by one with one Decorator) the node is built without its comments, line breaks and spacing (this file's tables know nothing about it) and cached; decorating its own file afterwards reuses the bare node — the result depends on the order of the DecorateFile calls")
+				return true
+			})
+		}
+		return true
+	})
+	e.Run.Floor("R-EXTRAS", "conversions of declaring nodes in decorateObject", n, 2)
 }
